@@ -7,6 +7,7 @@ CONSTANTS
   PowMulN = 8
   SimpN = 6
   RuleN = 10
+  HistN = 0
 INIT Init
 NEXT Next
 INVARIANT Export
